@@ -150,14 +150,23 @@ func (x *X) loopCore(f *Frame, st *State, L *loopDesc) *State {
 	}
 	mvars := x.assignedVars(f, nodes, L.pos)
 	mvars = append(mvars, L.extra...)
-	// ghost variables may be updated by `set` statements anywhere in the body: havoc them all
-	var gnames []string
-	for n := range f.ghostVars {
-		gnames = append(gnames, n)
-	}
-	sort.Strings(gnames)
-	for _, n := range gnames {
-		mvars = append(mvars, f.ghostVars[n])
+	// ghost variables updated by `set` statements inside the body are discovered by the dry runs
+	// below (execGhost records them) and havocked like assigned locals
+	savedGhostSets := f.dryGhostSets
+	f.dryGhostSets = map[string]bool{}
+	baseVars := len(mvars)
+	addGhostVars := func() {
+		mvars = mvars[:baseVars]
+		var gnames []string
+		for n := range f.dryGhostSets {
+			gnames = append(gnames, n)
+		}
+		sort.Strings(gnames)
+		for _, n := range gnames {
+			if gv, ok := f.ghostVars[n]; ok {
+				mvars = append(mvars, gv)
+			}
+		}
 	}
 
 	havocVars := func(s *State) {
@@ -181,7 +190,8 @@ func (x *X) loopCore(f *Frame, st *State, L *loopDesc) *State {
 		s1 := st.clone()
 		havocVars(s1)
 		for h := range modHeaps {
-			c.setHeap(s1, h, c.fresh("dh", s1.hsorts[h]), nil)
+			// direct assignment: this havoc must not be logged as a write of the enclosing loop
+			s1.heaps[h] = c.fresh("dh", s1.hsorts[h])
 		}
 		var log []WriteRec
 		s1.wlog = &log
@@ -194,10 +204,18 @@ func (x *X) loopCore(f *Frame, st *State, L *loopDesc) *State {
 			}
 		}
 		finalLog = log
-		if !grew {
+		nGhost := len(mvars)
+		addGhostVars()
+		if !grew && len(mvars) == nGhost {
 			break
 		}
 	}
+	for n := range f.dryGhostSets {
+		if savedGhostSets != nil {
+			savedGhostSets[n] = true // also modified from the point of view of an enclosing loop
+		}
+	}
+	f.dryGhostSets = savedGhostSets
 	// per heap: invariant refs or whole
 	type hmod struct {
 		whole bool
@@ -434,6 +452,9 @@ func (x *X) loopCore(f *Frame, st *State, L *loopDesc) *State {
 			if e != nil {
 				e.wlog = st.wlog
 			}
+		}
+		if st.wlog != nil {
+			*st.wlog = append(*st.wlog, realLog...)
 		}
 	}
 	return c.mergeAll(exits)
